@@ -123,7 +123,7 @@ mpz_mul (mpz_ptr w, mpz_srcptr u, mpz_srcptr v)
 	  free_me_size = w->_mp_alloc;
 	}
       else
-	(*__gmp_free_func) (wp, w->_mp_alloc * BYTES_PER_MP_LIMB);
+	(*__gmp_free_func) (wp, (size_t) w->_mp_alloc * BYTES_PER_MP_LIMB);
 
       w->_mp_alloc = wsize;
       wp = (mp_ptr) (*__gmp_allocate_func) (wsize * BYTES_PER_MP_LIMB);
